@@ -36,6 +36,24 @@ def fresh_names(rng, k, avoid=()):
     return out
 
 
+GLUE = ['EX', 'AX', 'EF', 'AF', 'EG', 'AG', 'X', 'F', 'G', 'A', 'E', 'not', 'Not', 'EU', 'AR']
+
+
+def glued_names(rng, k):
+    """atom names that are an operator spelling glued to ANOTHER atom name of the same renaming (EXIT next to IT, Ap next
+    to p, notq next to q): legal identifiers; an answer may not depend on such a choice of names (a printer that drops a
+    blank, or a lexer that splits them, would make it)"""
+    base = rng.choice(['IT', 'p', 'q0', 'it', 'x_1'])
+    out = [base]
+    while len(out) < k:
+        b = rng.choice(out)
+        nm = rng.choice([rng.choice(GLUE) + b, b + 'U' + base, b + 'orb', b + 'R' + base, 'A' + b + 'U' + base])
+        if nm not in out:
+            out.append(nm)
+    rng.shuffle(out)
+    return out
+
+
 def rename_formula(f, sigma):
     if f[0] == 'ap':
         return ('ap', sigma[f[1]])
@@ -159,6 +177,20 @@ def variants_inprocess(kd, aps, queries, rng):
                                                   containers='set' if rng.random() < 0.3 else 'list'), queries, None))
     sigma = dict(zip(aps, fresh_names(rng, len(aps), avoid=aps)))
     vs.append(('rename-atoms', presentation(kd, rng, sigma=sigma, permute=rng.random() < 0.5),
+               [(lg, rename_formula(f, sigma)) for lg, f in queries], None))
+    sigma = dict(zip(aps, glued_names(rng, len(aps))))
+    # formula-directed: one atom gets the name a QUANTIFIED SUBFORMULA OVER ANOTHER ATOM would have if printed without blanks
+    # (EX p  ~  atom 'EXp' when p keeps its name): the most likely confusion of a printed-form memo / lexer
+    cands = [(g[0] + g[1][0], g[1][1][1]) for lg, f in queries for g in subformulas(f)
+             if g[0] in ('A', 'E') and len(g) == 2 and g[1][0] in ('X', 'F', 'G') and g[1][1][0] == 'ap']
+    if cands and len(aps) >= 2:
+        pre, a = rng.choice(cands)
+        b = rng.choice([x for x in aps if x != a])
+        base = rng.choice(['IT', 'p', 'q0'])
+        sigma = {x: 'z%d' % i for i, x in enumerate(aps)}
+        sigma[a] = base
+        sigma[b] = pre + base
+    vs.append(('rename-atoms-glued', presentation(kd, rng, sigma=sigma, permute=rng.random() < 0.5),
                [(lg, rename_formula(f, sigma)) for lg, f in queries], None))
     for into_old in (False, True):
         ex = unreachable_extension(kd, rng, aps, into_old)
